@@ -104,10 +104,11 @@ class Swing(Part):
 
     def describe(self, tier):
         return ('M in (4, 8, 13) x D in (0, 2) x xd1 in (0.2, 0.3) x line x in (0.2, 0.5) x P in (0.4, 0.8) x schedules (none, open at '
-                't1 in (0.1, 0.2, 0.35), open at t1 and reclose at t2 from a 3-point lattice) x (trapezoid, backeuler) x h in '
+                't1 in (0, 0.1, 0.2, 0.35), open at t1 and reclose at t2 from a 4-point lattice) x (trapezoid, backeuler) x h in '
                 '(1/30, 1/60, 1/120)' + ('; quick tier: default + all single and pair deviations of the five parameters' if tier == 'quick' else ''))
 
-    SCHEDS = [[], [[0.1, 0]], [[0.2, 0]], [[0.35, 0]], [[0.1, 0], [0.25, 1]], [[0.1, 0], [0.4, 1]], [[0.2, 0], [0.3, 1]]]
+    SCHEDS = [[], [[0.1, 0]], [[0.2, 0]], [[0.35, 0]], [[0.1, 0], [0.25, 1]], [[0.1, 0], [0.4, 1]], [[0.2, 0], [0.3, 1]], [[0.0, 0]],
+              [[0.0, 0], [0.2, 1]]]
 
     def cases(self, tier):
         axes = dict(M=(8.0, 4.0, 13.0), D=(0.0, 2.0), xd1=(0.3, 0.2), x=(0.5, 0.2), p=(0.8, 0.4))
